@@ -18,6 +18,14 @@ replay: trees are materialised; for every dotted name (present, absent,
         (import_module_from_path: __name__, sys.path restored, also when the
         module raises); package_modpaths and the collector must list exactly
         the files of the package tree.
+entries: specs/SearchPath.tla - a search path of two or three entries, each a
+        tree as above (all 2 500 pairs of depth-2 trees over one name per level,
+        a sample of the triples).  Operational: the first entry in which the
+        whole dotted name resolves; declarative: the first entry that provides
+        the top-level name decides (the interpreter).  MultiResolveIsImport
+        with the named known deviation Shadowed (finding F24).  Every case is
+        materialised: modname_to_modpath(sys_path=[e1, e2(, e3)]) against the
+        specification and importlib's FileFinder over the entries.
 """
 import importlib.machinery
 import io
@@ -357,6 +365,111 @@ def _space(out, label, names, states, limit, collect, prop):
     common.cleanup_scratch()
 
 
+def finder_resolve_multi(roots, q):
+    """the interpreter's finder over several search path entries: the first entry that provides the top-level name as a regular
+    package or a module decides (namespace portions do not); the rest is searched inside that package only"""
+    details = (importlib.machinery.SourceFileLoader, importlib.machinery.SOURCE_SUFFIXES)
+    for i, root in enumerate(roots, 1):
+        spec = importlib.machinery.FileFinder(root, details).find_spec(q[0])
+        if spec is not None and spec.loader is not None:
+            return i, finder_resolve(root, q)
+    return 0, None
+
+
+def _one_multi(raw):
+    from xdoctest.utils import util_import
+    trees, results = tlaval.parse_value(raw)
+    trees = [{tuple(k): v for k, v in (t.items() if isinstance(t, dict) else [])} for t in trees]
+    rot = (zlib.crc32(raw.encode()) + _JOB['seed']) % 100003
+    base = os.path.join(_JOB['dir'], 'm%d_%08x' % (os.getpid(), zlib.crc32(raw.encode())))
+    roots = [os.path.join(base, 'entry%d' % (i + 1)) for i in range(len(trees))]
+    bad = []
+    known = []
+    try:
+        for t, r in zip(trees, roots):
+            os.makedirs(r)
+            materialise(t, r, rot)
+        importlib.invalidate_caches()
+        for q, op, decl, shadowed in results:
+            q = tuple(q)
+            name = '.'.join(q)
+            exp_op = spec_path(roots[op[0] - 1], op[1]) if op[0] else None
+            exp_decl = spec_path(roots[decl[0] - 1], decl[1]) if decl[0] else None
+            oi, oracle = finder_resolve_multi(roots, q)
+            if oracle != exp_decl:
+                raise common.MachineryError('the interpreter\'s finder disagrees with the specification for %s over %r: %r vs %r' % (name, trees, oracle, exp_decl))
+            got = util_import.modname_to_modpath(name, sys_path=list(roots))
+            if got is not None:
+                got = os.path.normpath(got)
+            rel = lambda x: x and os.path.relpath(x, base)
+            if got != exp_decl:
+                if shadowed and got == exp_op:
+                    known.append(('modname_to_modpath_shadowed_by_earlier_entry[%s]' % name, rel(exp_decl), rel(got)))
+                else:
+                    bad.append(('modname_to_modpath_over_entries[%s]' % name, rel(exp_decl), rel(got)))
+    finally:
+        shutil.rmtree(base, ignore_errors=True)
+    info = {'key': str(hash(raw)), 'nq': len(results)}
+    if bad:
+        info.update(bad=[(f, repr(a), repr(b)) for f, a, b in bad[:12]], tree=[{'/'.join(k): v for k, v in t.items()} for t in trees])
+    elif known:
+        info.update(known=[(f, repr(a), repr(b)) for f, a, b in known[:12]], tree=[{'/'.join(k): v for k, v in t.items()} for t in trees])
+    return info
+
+
+MULTI_INVS = ['MultiResolveIsImport', 'FoundIsThere']
+
+
+def multi_cfg(states, nroots, invariants, deviation=('Emit',)):
+    lines = ['SPECIFICATION MSpec', 'CONSTANTS', ' NamesAt <- NN', ' StatesAt <- %s' % states, ' NRoots = %d' % nroots,
+             ' Deviation = {%s}' % ', '.join('"%s"' % d for d in deviation)]
+    lines += ['INVARIANT %s' % i for i in invariants]
+    lines += ['CHECK_DEADLOCK FALSE', '']
+    return '\n'.join(lines)
+
+
+def multi_phase(out, tier):
+    """specs/SearchPath.tla: a search path of two (three) entries, every combination of trees; modname_to_modpath(sys_path=[...]) against
+    the interpreter's rule (first entry that provides the top-level name decides)"""
+    spaces = [('two entries', 'SS', 2, None)] + ([('three entries', 'SS3', 3, 30000)] if tier == 'thorough' else [('three entries', 'SS3', 3, 1500)])
+    for label, states, nroots, limit in spaces:
+        res = common.run_tlc('MC_SearchPath', multi_cfg(states, nroots, MULTI_INVS), printed=True, timeout=1800)
+        common.tlc_must_pass(res, 'SearchPath ' + label)
+        out.add_tlc(res, 'exhaustive:search path, ' + label)
+        if res.violated:
+            raise common.MachineryError('spec-level invariant %s violated on the unchanged spec (SearchPath %s):\n%s' % (res.violated, label, res.stdout[-3000:]))
+        raws = sorted(common.iter_printed(res))
+        if limit and len(raws) > limit:
+            import random
+            raws = random.Random(common.seed()).sample(raws, limit)
+            out.extra['replay_sampled'] = True
+        _JOB['seed'] = common.seed()
+        _JOB['dir'] = common.scratch_dir('xdv-searchpath')
+        infos = common.parallel_map(_one_multi, raws, chunk=20)
+        for info in infos:
+            out.traces += 1
+            out.count_nontrivial(info['key'])
+            out.evaluations += info['nq']
+            out.extra['search_path_queries'] = out.extra.get('search_path_queries', 0) + info['nq']
+            if 'bad' in info:
+                out.violation({'kind': 'search_path_replay', 'fields': ','.join(sorted({b[0].split('[')[0] for b in info['bad']}))},
+                              {'trees_in_search_order': info['tree'], 'disagreements': info['bad']})
+            elif 'known' in info:
+                out.violation({'kind': 'search_path_replay', 'fields': 'modname_to_modpath_shadowed_by_earlier_entry'},
+                              {'trees_in_search_order': info['tree'], 'disagreements': info['known']})
+        common.cleanup_scratch()
+    # vacuity: the exemption for the known deviation is reachable, and a wrong search order is rejected
+    res = common.run_tlc('MC_SearchPath', multi_cfg('SS', 2, ['NeverShadowed'], deviation=()), timeout=600)
+    common.cleanup_scratch()
+    if not res.violated:
+        raise common.MachineryError('vacuity control: no shadowed name in the two-entry space')
+    res = common.run_tlc('MC_SearchPath', multi_cfg('SS', 2, MULTI_INVS, deviation=('PackagesFirst',)), timeout=600)
+    common.cleanup_scratch()
+    if not res.violated:
+        raise common.MachineryError('vacuity control: deviation PackagesFirst does not violate MultiResolveIsImport')
+    out.extra.setdefault('deviations_rejected', {})['PackagesFirst'] = res.violated
+
+
 def package_phase(out, tier):
     """used by C07: package trees of depth 3 (a package below a plain directory below a package)"""
     _space(out, 'packages depth 3', 'N3', 'S3', BOUNDS[tier]['limit3'], True, 'C07')
@@ -374,6 +487,7 @@ def run(tier):
                 'depth-3 family N3/S3; every dotted name of length <= depth over the names, an absent name and __main__')
     _space(out, 'trees depth 2', 'N2', 'S2', b['limit2'], False, 'C17')
     _space(out, 'trees depth 3', 'N3', 'S3', b['limit3'], False, 'C17')
+    multi_phase(out, tier)
     for dev in ('NoIsValid', 'FileBeforePackage'):
         res = common.run_tlc('MC_ModPath', cfg('N2', 'S2', INVS, deviation=(dev,)), timeout=900)
         common.cleanup_scratch()
